@@ -472,6 +472,11 @@ func (c *ctx) absorb(in batchIn, out *batchOut) {
 		}
 	}
 	for _, je := range out.SlowOnes {
+		if out.Hung != nil && (in.Family == "opts" || in.Family == "cfgpat") {
+			// tiny well-formed inputs: the evaluation the batch was abandoned for is examined (by the caller); the
+			// other workers that were stuck at that moment would each cost another solo run of minutes
+			break
+		}
 		c.examine(je, "slow")
 	}
 }
